@@ -57,11 +57,26 @@ func runC12Parsers(r *Run) *Violation {
 		if err != nil && err != io.EOF && !isEOFish(err) {
 			return c12Viol("C12.decode_error", "well-formed item rejected", "%s: parseAofCommand ended with %v", ctx, err)
 		}
+		prevOff := st.Base
 		for _, c := range cmds {
+			// every emitted item is labelled with the end of the source command it stands for: labels never decrease
+			if c.Offset < prevOff {
+				return c12Viol("C12.parser_offset", "offsets attached to emitted commands decrease", "%s: [%s] carries offset %d, the item emitted before it carried %d", ctx, fmtCmd(c.Cmd, c.Args), c.Offset, prevOff)
+			}
+			prevOff = c.Offset
 			switch c.Cmd {
 			case "select", "ping", "multi", "exec":
-				if _, ok := st.ItemEndingAt(c.Offset); !ok {
+				idx, ok := st.ItemEndingAt(c.Offset)
+				if !ok {
 					return c12Viol("C12.parser_offset", "offset attached to an emitted command is not the end of its source command", "%s: [%s] carries offset %d, which ends no source command", ctx, fmtCmd(c.Cmd, c.Args), c.Offset)
+				}
+				want := map[string]ItemKind{"select": KSelect, "ping": KPing, "multi": KMulti, "exec": KExec}[c.Cmd]
+				if idx < 0 || st.Items[idx].Kind != want {
+					what := "the start of the stream"
+					if idx >= 0 {
+						what = "the end of [" + fmtCmd(st.Items[idx].Name, st.Items[idx].Args) + "]"
+					}
+					return c12Viol("C12.parser_offset", "offset attached to an emitted command is not the end of its source command", "%s: emitted [%s] carries offset %d, which is %s, not the end of a source %s", ctx, fmtCmd(c.Cmd, c.Args), c.Offset, what, c.Cmd)
 				}
 				continue
 			}
